@@ -622,6 +622,68 @@ case("C04", "C04-D19", "mutant", "historical defect D19 re-introduced: the wait 
 case("C17", "C17-D17", "mutant", "historical defect D17 re-introduced: the cancelled waiter searches the queue by the address of its (possibly zero-size) entry",
      patch="selftest/regress/D17.diff", expect=[("C17.R8", "Acquire", "own position")])
 
+# ---------------------------------------------------------------- fourth round of seeded changes (generated from the matrix)
+case('C01', "C01-seed7", "mutant", 'seeded (round 4): internal/limitread LimitRead.Read gains an early exit: once the remaining limit has reached exactly 0 it returns (0, io.EOF) ',
+     patch="seeded/C01-7/patch.diff", expect=[('C01.R3', 'Read', "end of stream comes from the source")])
+case('C01', "C01-seed8", "mutant", 'seeded (round 4): cmd/regctl regctl blob get never closed the blob reader; the change gives runBlobGet a named result (err error) and, right ',
+     patch="seeded/C01-8/patch.diff", expect=[('C01.R11', 'runBlobGet', "deferred store to the error result")])
+case('C02', "C02-seed7", "mutant", 'seeded (round 4): scheme/reg: Reg.ManifestPut no longer stores the callers manifest pointer in the manifest cache. It calls a new helper Reg.c',
+     patch="seeded/C02-7/patch.diff", expect=[('C02.R11', 'cacheManPut', "manifest cached")])
+case('C02', "C02-seed8", "mutant", 'seeded (round 4): types/manifest/manifest.go New(): the two blocks that fill in the expected digest were reordered. The response headers (Conte',
+     patch="seeded/C02-8/patch.diff", expect=[('C02.R12', 'New', "reference digest before header digest")])
+case('C03', "C03-seed7", "mutant", 'seeded (round 4): scheme/reg Reg.ReferrerList was tidied up so that the referrer list cache is written in one place: the two separate cacheRL',
+     patch="seeded/C03-7/patch.diff", expect=[('C03.R12', 'ReferrerList', "cacheRL.Set value")])
+case('C03', "C03-seed8", "mutant", 'seeded (round 4): scheme/reg Reg.TagList follows the Link: rel=next header to collect all pages of a registrys tag listing. The change makes t',
+     patch="seeded/C03-8/patch.diff", expect=[('C03.R13', 'TagList', "loop exit")])
+case('C04', "C04-seed7", "mutant", 'seeded (round 4): scheme/ocidir: the OCI layout scheme is made context aware (use the ctx that is already passed in): BlobGet, BlobHead, Blob',
+     patch="seeded/C04-7/patch.diff", expect=[('C04.R13', 'closeProcManifest', "ignored load failure of manifestGet")])
+case('C04', "C04-seed8", "mutant", 'seeded (round 4): image.go imageCopyOpt: the copy of the referrers of a manifest is moved behind the push of that manifest. The referrer lookup',
+     patch="seeded/C04-8/patch.diff", expect=[('C04.R1', 'imageCopyOpt', "go#5 completes once")])
+case('C05', "C05-seed7", "mutant", 'seeded (round 4): Optimisation of the retry loop in internal/reghttp/http.go (Resp.next), the HTTP helper every request of an upload session ',
+     patch="seeded/C05-7/patch.diff", expect=[('C05.R9', 'next', "round trip failure")])
+case('C05', "C05-seed8", "mutant", 'seeded (round 4): Clean-up in the OCI layout sibling, scheme/ocidir/blob.go:BlobPut, of the temp file used for write to temp file, verify dige',
+     patch="seeded/C05-8/patch.diff", expect=[('C05.R8', 'BlobPut', "os.Create")])
+case('C06', "C06-seed8", "mutant", 'seeded (round 4): scheme/ocidir/close.go Close (garbage collection run by rc.Close after a modification): refactored so the OCIDir mutex is onl',
+     patch="seeded/C06-8/patch.diff", expect=[('C06.R10', 'Close', "sweep removal")])
+case('C07', "C07-seed7", "mutant", 'seeded (round 4): ImageCopy (image.go, imageCopyBlob / imageSeenOrWait) no longer waits for a blob whose copy was already started by another ma',
+     patch="seeded/C07-7/patch.diff", expect=[('C07.R9', 'imageSeenOrWait', "in-flight content is waited for")])
+case('C07', "C07-seed8", "mutant", 'seeded (round 4): readIndex in scheme/ocidir/ocidir.go now validates the digest of every index.json entry after parsing (digests from the inde',
+     patch="seeded/C07-8/patch.diff", expect=[('C07.R8', 'readIndex', "no failure after the index was parsed")])
+case('C08', "C08-seed8", "mutant", 'seeded (round 4): OCIDir.refMod (scheme/ocidir/ocidir.go), the helper every writer shares (BlobPut, manifestPut, ManifestDelete, tagDelete) to ',
+     patch="seeded/C08-8/patch.diff", expect=[('C08.R2', 'refMod', "store into modRefs")])
+case('C10', "C10-seed7", "mutant", 'seeded (round 4): Optimisation of the shared filter helper types/descriptor.DescriptorListFilter: instead of collecting the matching descriptor',
+     patch="seeded/C10-7/patch.diff", expect=[('C10.R10', 'DescriptorListFilter', "fresh result slice")])
+case('C10', "C10-seed8", "mutant", 'seeded (round 4): Optimisation in the root package: RegClient.ReferrerList (referrer.go) now shares the response of a referrers query that is a',
+     patch="seeded/C10-8/patch.diff", expect=[('C10.R11', 'ReferrerList', "returned listing")])
+case('C11', "C11-seed7", "mutant", 'seeded (round 4): blob.go RegClient.BlobCopy(): the local copy of the descriptor with the external URLs removed (`tDesc := d; tDesc.URLs = []st',
+     patch="seeded/C11-7/patch.diff", expect=[('C11.R11', 'BlobCopy', "BlobHead on the target")])
+case('C11', "C11-seed8", "mutant", 'seeded (round 4): internal/reghttp/http.go: the url construction is moved out of the long closure in Resp.next() into a new method clientHost.r',
+     patch="seeded/C11-8/patch.diff", expect=[('C11.R4', 'reqURL', "scheme http")])
+case('C12', "C12-seed7", "mutant", 'seeded (round 4): blob.go (root package regclient) BlobCopy: the progress reporting for BlobWithCallback / ImageWithCallback is refactored. Ins',
+     patch="seeded/C12-7/patch.diff", expect=[('C12.R9', 'BlobCopy', "source of BlobPut")])
+case('C12', "C12-seed8", "mutant", 'seeded (round 4): scheme/reg/blob.go blobPutUploadChunked: the if / else-if chain that classifies the response to a chunk PATCH (201 early acce',
+     patch="seeded/C12-8/patch.diff", expect=[('C12.R3', 'blobPutUploadChunked', "loop:for.loop")])
+case('C14', "C14-seed7", "mutant", 'seeded (round 4): scheme/ocidir (OCI layout sibling of the registry scheme): OCIDir.ManifestHead no longer uses os.Stat for its verify underly',
+     patch="seeded/C14-7/patch.diff", expect=[('C14.R8', 'scheme/ocidir', "link-following file calls only")])
+case('C14', "C14-seed8", "mutant", 'seeded (round 4): image.go, RegClient.imageCopyOpt, config branch of an image manifest: the config blob is no longer copied by a goroutine thro',
+     patch="seeded/C14-8/patch.diff", expect=[('C14.R2', 'imageCopyOpt', "blob copies go through the gate")])
+case('C16', "C16-seed7", "mutant", 'seeded (round 4): mod/manifest.go rebaseAddStep (the step behind mod.WithRebase / mod.WithRebaseRefs, i.e. regctl image mod --rebase / --reb',
+     patch="seeded/C16-7/patch.diff", expect=[('C16.R7', 'rebaseAddStep', "value remembered in mbOld")])
+case('C17', "C17-seed7", "mutant", 'seeded (round 4): internal/reghttp Resp.next(): the check when error does not allow retries, abort with the last known err value (errs.ErrNot',
+     patch="seeded/C17-7/patch.diff", expect=[('C17.R6', 'next', "Acquire")])
+case('C17', "C17-seed8", "mutant", 'seeded (round 4): scheme/ocidir: the per-layout write throttle map OCIDir.throttle is turned from a map guarded by o.mu into a sync.Map, so tha',
+     patch="seeded/C17-8/patch.diff", expect=[('C17.R7', 'throttleGet', "sync.Map.Store of a throttle")])
+case('C18', "C18-seed8", "mutant", 'seeded (round 4): scheme/ocidir/ocidir.go indexGet (tag lookup in the index.json of an OCI layout, used by ManifestHead/ManifestGet of the ocid',
+     patch="seeded/C18-8/patch.diff", expect=[('C18.R8', 'indexGet', "loose ref.name match HasSuffix")])
+case('C19', "C19-seed7", "mutant", 'seeded (round 4): Feature addition with a precedence bug in the regbot command (package main): cmd/regbot/config.go gains an optional `defaults',
+     patch="seeded/C19-7/patch.diff", expect=[('C19.R2', 'loadConf', "store to the --dry-run option field")])
+case('C19', "C19-seed8", "mutant", 'seeded (round 4): Logging clean-up in cmd/regbot/root.go process(): the warning Error running script used err.Error(), which for a *lua.ApiEr',
+     patch="seeded/C19-8/patch.diff", expect=[('C19.R6', 'process', "unchecked assertion on a Lua value")])
+case('C20', "C20-seed7", "mutant", 'seeded (round 4): Robustness feature in pkg/archive.Extract: tar archives are not required to carry a directory entry for every parent of a fil',
+     patch="seeded/C20-7/patch.diff", expect=[('C20.R2', 'Extract', "os.MkdirAll path")])
+case('C20', "C20-seed8", "mutant", 'seeded (round 4): Behaviour fix in `regctl artifact get --strip-dirs` (cmd/regctl/artifact.go, runArtifactGet): for a directory artifact (title',
+     patch="seeded/C20-8/patch.diff", expect=[('C20.R3', 'runArtifactGet', "os.Stat path")])
+
 def main():
     bad = 0
     for pid, cases in CASES.items():
